@@ -34,6 +34,7 @@ def run(ctx):
     ctx.do(rule_branch_table)
     ctx.do(rule_truncate)
     ctx.do(rule_utc)
+    ctx.do(rule_no_relabel)
     ctx.do(rule_api_domain)
     ctx.do(rule_property_forward)
     from .hidden_state import rule_no_hidden_state
@@ -301,6 +302,46 @@ def rule_utc(ctx):
     run.check(ok, R, key(rel, pd.qualname, "parsed-as-utc"), "parsed text / dates are not interpreted as UTC", file=rel,
               line=pd.node.lineno, function=pd.qualname, expected="aware -> astimezone(utc); naive -> localize(utc); date -> midnight UTC",
               found="changed")
+
+
+def rule_no_relabel(ctx, rule_id="C15.utc"):
+    """An instant is moved to UTC by CONVERSION (astimezone).  Re-labelling -- x.replace(tzinfo=...), zone.localize(x) -- keeps
+    the wall-clock reading and changes the instant unless x is naive; it is allowed only where x is known to be naive."""
+    run = ctx.run
+    prog = ctx.prog
+    n = 0
+    for fi in sorted(prog.functions.values(), key=lambda f: f.id):
+        if fi.module.relpath.startswith("stix2/test") or not fi.module.name.startswith(
+                ("stix2.utils", "stix2.versioning", "stix2.base", "stix2.properties", "stix2.datastore", "stix2.patterns",
+                 "stix2.serialization", "stix2.v20", "stix2.v21", "stix2.markings", "stix2.environment")):
+            continue
+        for c in body_walk(fi.node):
+            if not (isinstance(c, ast.Call) and isinstance(c.func, ast.Attribute)):
+                continue
+            x = None
+            if c.func.attr == "replace" and any(k.arg == "tzinfo" for k in c.keywords):
+                x = c.func.value
+            elif c.func.attr == "localize" and c.args:
+                x = c.args[0]
+            if x is None:
+                continue
+            n += 1
+            xt = norm(x)
+            naive = False
+            for t, pol, _ in guard_chain(c):
+                tt = norm(t)
+                if pol and ("%s.tzinfo is None" % xt) in tt and " and " not in tt:
+                    naive = True
+                if (not pol) and tt in ("%s.tzinfo" % xt, "%s.tzinfo is not None" % xt):
+                    naive = True
+            run.check(naive, rule_id, key(fi.module.relpath, fi.qualname, "relabel:%s" % short(c, 60)),
+                      "a time zone is attached / replaced without conversion on a value not known to be naive: an aware "
+                      "timestamp of another zone keeps its wall-clock reading and becomes another instant (written earlier or "
+                      "later than it is, so ordering breaks)", file=fi.module.relpath, line=c.lineno, function=fi.qualname,
+                      expected="astimezone(utc) for aware values; localize()/replace(tzinfo=) only under `x.tzinfo is None`",
+                      found=short(c))
+    if n < 2:
+        raise AnalysisError("fewer than 2 time-zone labelling sites found (%d): anchors lost" % n)
 
 
 def rule_api_domain(ctx):
